@@ -474,14 +474,29 @@ theorem execEv_ok (q : Quirks) (c : Conn) (ev : Ev) (h : StoreOk c.store) : Stor
     simp only [execEv]
     exact step_pres q _ _ _ _ _ h
 
+theorem inv_init (cfg : Cfg) : Inv cfg {} {} {} := ⟨rfl, rfl, Or.inl rfl, by decide⟩
+
+/-- the tracking state after a history -/
+def stAfter (cfg : Cfg) (st : LogSt) : List Ev → LogSt
+  | [] => st
+  | ev :: h => stAfter cfg (logEv cfg st ev).2 h
+
+theorem liveFrom_ok (q : Quirks) (h : List Ev) (c : Conn) (hok : StoreOk c.store) : StoreOk (liveFrom q c h).store := by
+  induction h generalizing c with
+  | nil => exact hok
+  | cons ev t ih =>
+    simp only [liveFrom, List.foldl_cons]
+    exact ih _ (execEv_ok q c ev hok)
+
 /-- MAIN LEMMA: from agreeing states, a history every event of which the log covers, and any replay of the entries it
-    leaves (at any instants, with any draws) end in agreeing stores — provided no deadline passes on either side
-    (and the draws reported for SPOPs logged by their effect are what those commands took). -/
-theorem replay_sim (q : Quirks) (cfg : Cfg) (hwf : cfg.wf = true) :
+    leaves (at any instants, with any draws) end in agreeing stores, with the tracking state describing the two
+    connections again — provided no deadline passes on either side (and the draws reported for SPOPs logged by their
+    effect are what those commands took). -/
+theorem replay_sim_inv (q : Quirks) (cfg : Cfg) (hwf : cfg.wf = true) :
     ∀ (h : List Ev) (cL cR : Conn) (st : LogSt) (es : List REntry),
       Inv cfg cL st cR → StoreOk cL.store → es.map (·.cmd) = logFrom cfg st h → (∀ ev ∈ h, inModel ev = true) →
       coveredFrom cfg st h = true → quietLive q cL h = true → quietReplay q cR es = true → drawsOk q cL h = true →
-      Agree (liveFrom q cL h).store (replayFrom q cR es).store := by
+      Inv cfg (liveFrom q cL h) (stAfter cfg st h) (replayFrom q cR es) := by
   intro h
   induction h with
   | nil =>
@@ -489,7 +504,7 @@ theorem replay_sim (q : Quirks) (cfg : Cfg) (hwf : cfg.wf = true) :
     simp only [logFrom] at hes
     have := map_eq_nil' hes
     subst this
-    exact hI.agree
+    exact hI
   | cons ev t ih =>
     intro cL cR st es hI hok hes hin hcov hqL hqR hdr
     simp only [logFrom] at hes
@@ -500,9 +515,36 @@ theorem replay_sim (q : Quirks) (cfg : Cfg) (hwf : cfg.wf = true) :
     rw [quietReplay_append, Bool.and_eq_true] at hqR
     have hI' := ev_sim q cfg hwf ev cL cR st hI es1 h1 (hin ev (by simp)) hcov.1 hqL.1 hqR.1 hok hdr.1
     rw [replayFrom_append]
-    simp only [liveFrom, List.foldl_cons]
+    simp only [liveFrom, List.foldl_cons, stAfter]
     exact ih (execEv q cL ev) (replayFrom q cR es1) (logEv cfg st ev).2 es2 hI' (execEv_ok q cL ev hok) h2
       (fun e he => hin e (by simp [he])) hcov.2 hqL.2 hqR.2 hdr.2
+
+theorem replay_sim (q : Quirks) (cfg : Cfg) (hwf : cfg.wf = true)
+    (h : List Ev) (cL cR : Conn) (st : LogSt) (es : List REntry)
+    (hI : Inv cfg cL st cR) (hok : StoreOk cL.store) (hes : es.map (·.cmd) = logFrom cfg st h) (hin : ∀ ev ∈ h, inModel ev = true)
+    (hcov : coveredFrom cfg st h = true) (hqL : quietLive q cL h = true) (hqR : quietReplay q cR es = true)
+    (hdr : drawsOk q cL h = true) :
+    Agree (liveFrom q cL h).store (replayFrom q cR es).store :=
+  (replay_sim_inv q cfg hwf h cL cR st es hI hok hes hin hcov hqL hqR hdr).agree
+
+/-- ACROSS A RESTART (with SELECT tracking): the first run leaves the entries of `h1`; the server is restarted on the same
+    file with its dataset back (every connection new: database 0; the engine knows nothing of where a reader of the
+    inherited file stands: `LogSt.restarted`); the second run appends the entries of `h2`.  Replaying the WHOLE file
+    still ends in a store that agrees with the live one. -/
+theorem replay_sim_restart (q : Quirks) (cfg : Cfg) (hwf : cfg.wf = true) (hsel : cfg.logSelect = true)
+    (h1 h2 : List Ev) (es1 es2 : List REntry)
+    (hes1 : es1.map (·.cmd) = logFrom cfg {} h1) (hes2 : es2.map (·.cmd) = logFrom cfg LogSt.restarted h2)
+    (hin1 : ∀ ev ∈ h1, inModel ev = true) (hin2 : ∀ ev ∈ h2, inModel ev = true)
+    (hcov1 : coveredFrom cfg {} h1 = true) (hcov2 : coveredFrom cfg LogSt.restarted h2 = true)
+    (hqL1 : quietLive q {} h1 = true) (hqL2 : quietLive q (liveFrom q {} h1).restarted h2 = true)
+    (hqR1 : quietReplay q {} es1 = true) (hqR2 : quietReplay q (replayFrom q {} es1) es2 = true)
+    (hdr1 : drawsOk q {} h1 = true) (hdr2 : drawsOk q (liveFrom q {} h1).restarted h2 = true) :
+    Agree (liveFrom q (liveFrom q {} h1).restarted h2).store (replayFrom q {} (es1 ++ es2)).store := by
+  have hI1 := replay_sim_inv q cfg hwf h1 {} {} {} es1 (inv_init cfg) StoreOk_empty hes1 hin1 hcov1 hqL1 hqR1 hdr1
+  have hI2 : Inv cfg (liveFrom q {} h1).restarted LogSt.restarted (replayFrom q {} es1) :=
+    ⟨hI1.agree, rfl, Or.inr ⟨hsel, Nat.le_refl 16⟩, by show (0 : Nat) < 16; decide⟩
+  rw [replayFrom_append]
+  exact replay_sim q cfg hwf h2 _ _ _ es2 hI2 (liveFrom_ok q h1 {} StoreOk_empty) hes2 hin2 hcov2 hqL2 hqR2 hdr2
 
 /-- without SPOP in the history the draws are trivially sound -/
 theorem drawsOk_of_no_spop (q : Quirks) : ∀ (h : List Ev) (c : Conn),
@@ -529,7 +571,6 @@ theorem drawsOk_of_no_spop (q : Quirks) : ∀ (h : List Ev) (c : Conn),
 /-! ## Corollaries used by the property theorems -/
 
 
-theorem inv_init (cfg : Cfg) : Inv cfg {} {} {} := ⟨rfl, rfl, Or.inl rfl, by decide⟩
 
 /-- with SELECT tracking, pops made for blocking clients logged and a table that contains every mutating name and
     EVAL, every event is covered except a random write logged verbatim (SPOP inside a script; any SPOP without
